@@ -184,6 +184,24 @@ func (fs *fileSet) meta(env *env) (*buildRuleMeta, error) {
 	}, nil
 }
 
+// fileNodes tells, for every listed file that is not a plain source file,
+// what kind of node bears its name (a rule or output named like a source
+// file takes its place). It is part of the action digest, so that a file
+// entering or leaving the set under such a name is not mistaken for no
+// change.
+func (fs *fileSet) fileNodes(env *env) map[string]string {
+	var m map[string]string
+	for _, f := range fs.files {
+		if t := env.nodeType(f); t != nodeSrc {
+			if m == nil {
+				m = make(map[string]string)
+			}
+			m[f] = t
+		}
+	}
+	return m
+}
+
 func referenceFileSetOut(env *env, name string) (string, error) {
 	if t := env.nodeType(name); t != nodeRule {
 		return "", errcode.Internalf("not a file set, but %q", t)
